@@ -135,6 +135,15 @@ def k_seq(run, case):
             h = n // 2
             arr["p"][:h] = np.cumsum(np.abs(rng.normal(size=(h, 3))) * 2e5 / max(h, 1), axis=0)
             arr["p"][h:] = arr["p"][h - 1] + rng.normal(size=(n - h, 3)) * 1e-6
+    if rng.random() < .15:
+        # almost, not exactly, straight up / down: cos(pitch) between 3e-9 and 1e-6 (roll and yaw
+        # are still well defined to ~1e-7 rad there)
+        for k in range(n):
+            if rng.random() < .4:
+                sgn = 1.0 if rng.random() < .5 else -1.0
+                pitch = sgn * (PI / 2 - 10.0**rng.uniform(-8.5, -6))
+                arr["R"][k] = rm.rodrigues([0, 0, 1], rng.uniform(-PI, PI)) @ rm.rodrigues([0, 1, 0], pitch) @ \
+                    rm.rodrigues([1, 0, 0], rng.uniform(-PI, PI))
     if rng.random() < .25:
         # attitudes looking straight up / down (pitch exactly +-90 degrees: gimbal lock of the roll-pitch-yaw split)
         for k in range(n):
@@ -309,10 +318,24 @@ def k_seq(run, case):
                         # the plotted triple must recompose to the pose's rotation (also at gimbal
                         # lock, where roll and yaw are not unique but every valid split recomposes)
                         Rk = rm.rodrigues([0, 0, 1], ang[k, 2]) @ rm.rodrigues([0, 1, 0], ang[k, 1]) @ rm.rodrigues([1, 0, 0], ang[k, 0])
-                        worst = max(worst, float(np.max(np.abs(Rk - R[k]))))
+                        # (next to the singularity roll and yaw carry rounding / cos(pitch) each)
+                        cyk = math.hypot(R[k][0, 0], R[k][1, 0])
+                        worst = max(worst, float(np.max(np.abs(Rk - R[k]))) / (1.0 + (1e-8 / cyk if 1e-12 < cyk < 1e-6 else 0.0)))
                     run.check(worst <= 1e-7, "roll/pitch/yaw plot shows the pose's own Euler angles in degrees", case,
                               "%s: plotted roll/pitch/yaw do not reproduce the orientations (%g)" % (where, worst),
                               key="traj_rpy:wrong-y")
+                    # away from the singularity itself roll and yaw are unique: the plotted angles are
+                    # the pose's (conditioning ~ rounding / cos(pitch))
+                    worst_a = 0.0
+                    for k in range(n):
+                        cy = math.hypot(R[k][0, 0], R[k][1, 0])
+                        if cy > 1e-9:
+                            for got, own in ((ang[k, 2], math.atan2(R[k][1, 0], R[k][0, 0])), (ang[k, 0], math.atan2(R[k][2, 1], R[k][2, 2]))):
+                                d = abs((got - own + PI) % (2 * PI) - PI)
+                                worst_a = max(worst_a, d / (1e-6 + 1e-14 / cy))
+                    run.check(worst_a <= 1.0, "roll and yaw are the pose's own angles wherever they are unique", case,
+                              "%s: plotted roll / yaw differ from the pose's angles (%g x tolerance)" % (where, worst_a),
+                              key="traj_rpy:wrong-angle")
                     run.check(axarr[2].get_xlabel() == ("$t$ (s)" if stamped else "index"),
                               "time axis labelled", case, "%s: xlabel %r" % (where, axarr[2].get_xlabel()),
                               key="rpy:label")
